@@ -676,8 +676,114 @@ func runGC(c Case, s *hx.Sink) string {
 	return fmt.Sprintf("LruCase %s %s []", hx.N(c.ID), hx.Nat(c.Cap))
 }
 
+// runConcBound: free-running goroutines on one small cache (hits racing with evictions and removals of the same
+// keys); at every join the number of resident entries must be within the capacity
+func runConcBound(c Case, s *hx.Sink) string {
+	cache, err := lru.NewECache[int, int, int](c.Cap, func(k int) int { return k },
+		func(k int) (int, error) { return k, nil }, func(int, int) {})
+	if err != nil {
+		s.DirectViolation(c.ID, "NewECache failed", err.Error())
+		return fmt.Sprintf("LruCase %s %s []", hx.N(c.ID), hx.Nat(c.Cap))
+	}
+	worst := 0
+	for round := 0; round < c.Rep; round++ {
+		var wg sync.WaitGroup
+		for g := 0; g < 8; g++ {
+			wg.Add(1)
+			go func(g int) {
+				defer wg.Done()
+				defer func() { recover() }()
+				r := prng.New(c.GSeed, "C11conc", uint64(round*8+g))
+				for i := 0; i < c.GLen; i++ {
+					k := r.Intn(c.Cap + 3)
+					if round%2 == 1 && r.Chance(1, 12) { // rounds without Remove: nothing brings the number of entries down but evictions
+
+						cache.Remove(k)
+					} else {
+						cache.GetOrCreate(k)
+					}
+				}
+			}(g)
+		}
+		wg.Wait()
+		if n, _ := cache.VerifC09Counts(); n > worst {
+			worst = n
+		}
+	}
+	s.Count("conc-bound")
+	if worst > c.Cap {
+		s.DirectViolation(c.ID, "cache holds more entries than its capacity after concurrent calls have returned",
+			map[string]any{"cap": c.Cap, "resident_entries": worst, "goroutines": 8, "calls_per_goroutine": c.GLen})
+	}
+	return fmt.Sprintf("LruCase %s %s []", hx.N(c.ID), hx.Nat(c.Cap))
+}
+
+// runMixerUse: the library's own users of map iterators.  A Mixer over the iterators of two maps is read (completely,
+// partly, not at all) and closed - the caller owns no other iterator; then the maps are changed (entries added at the
+// end, the former last entries removed).  With every iterator closed each map must hold Len()+1 nodes and no pin.
+func runMixerUse(c Case, s *hx.Sink) string {
+	r := prng.New(c.GSeed, "C11mixer", 0)
+	m1, m2 := iterable.NewMap[int, int](), iterable.NewMap[int, int]()
+	next := 0
+	for round := 0; round < c.GLen; round++ {
+		for _, m := range []*iterable.Map[int, int]{m1, m2} {
+			for i := r.Intn(4); i > 0; i-- {
+				next++
+				m.Add(next, next)
+			}
+		}
+		mx := &iterable.Mixer[iterable.MapEntry[int, int]]{}
+		mx.Init(func(a, b iterable.MapEntry[int, int]) bool { return a.Key <= b.Key }, m1.Iterator(), m2.Iterator())
+		switch r.Intn(4) {
+		case 0: // not read at all
+		case 1: // partly
+			for i := r.Intn(3); i > 0 && mx.HasNext(); i-- {
+				mx.Next()
+			}
+		default: // to the end
+			for mx.HasNext() {
+				mx.Next()
+			}
+		}
+		mx.Close()
+		for _, m := range []*iterable.Map[int, int]{m1, m2} {
+			last := -1
+			it := m.Iterator()
+			for it.HasNext() {
+				e, _ := it.Next()
+				last = e.Key
+			}
+			it.Close()
+			next++
+			m.Add(next, next)
+			if last >= 0 {
+				m.Remove(last)
+			}
+			if m.Len() > 6 {
+				k, _ := m.First()
+				m.Remove(k)
+			}
+		}
+	}
+	s.Count("mixer-use")
+	for i, m := range []*iterable.Map[int, int]{m1, m2} {
+		nodes, deleted, refs, headOK := m.VerifWalk()
+		if nodes > m.Len()+1 || deleted > 0 || refs > 0 || !headOK {
+			s.DirectViolation(c.ID, "reachable nodes > Len()+1+open iterators (or more pinned entries than open iterators)",
+				map[string]any{"map": i + 1, "after": "a Mixer over the map's iterator was used and closed in every round; no iterator is open",
+					"rounds": c.GLen, "len": m.Len(), "nodes": nodes, "removed_entries_still_linked": deleted, "pins": refs})
+			break
+		}
+	}
+	return fmt.Sprintf("LruCase %s %s []", hx.N(c.ID), hx.Nat(1))
+}
+
 func runCase(c Case, s *hx.Sink) string {
 	switch c.Kind {
+	case "mixeruse":
+		return runMixerUse(c, s)
+	case "concbound":
+		return runConcBound(c, s)
 	case "lru":
 		return runLru(c, s)
 	case "xlru":
@@ -741,6 +847,16 @@ func main() {
 			n = 20000
 		}
 		emit(Case{Kind: "xlru", Cap: cap, GSeed: fl.Seed*31 + uint64(i), GLen: n}, "xlru-expirable-reentrant")
+	}
+	for i, cap := range []int{1, 2, 3, 5} {
+		n := 20000
+		if thorough {
+			n = 300000
+		}
+		emit(Case{Kind: "concbound", Cap: cap, GSeed: fl.Seed*17 + uint64(i), GLen: n, Rep: 3}, "conc-bound")
+	}
+	for i := 0; i < 4; i++ {
+		emit(Case{Kind: "mixeruse", Cap: 1, GSeed: fl.Seed*19 + uint64(i), GLen: 50 + 200*i}, "mixer-use")
 	}
 	for i, n := range []int{40, 400, 3000} {
 		emit(Case{Kind: "gc", Cap: 0, GLen: n, Rep: i}, "gc-map")
